@@ -122,3 +122,32 @@ Theorem C14_seq_id_any_value : forall d m t,
   construct_seq [(K_data, OStr d); (K_meta, OAttr CMeta m); (K_type, OStr t)] = Ok (OSeq (upper d) m t).
 Proof. exact seq_id_any_value. Qed.
 Print Assumptions C14_seq_id_any_value.
+
+(* the `_fmtcomment` wrapper and the sniffer: the top-level object written for a basket starts with the comment entry, and the text
+   json.dump produces for such an object (its head: brace, quoted key, separator, opening quote, value -- trusted text layer, checked
+   by the driver on every case) is accepted by is_sjson whatever follows, so sugar.read detects the format of what write() wrote *)
+Theorem C14_written_text_is_detected : forall b rest, is_basket b = true ->
+  (exists kv, write_sjson b = JObj ((K_fmtcomment, JStr SJSON_COMMENT) :: kv)) /\
+  text_head (write_sjson b) <> [] /\ is_sjson (text_head (write_sjson b) ++ rest) = true.
+Proof. exact written_text_is_detected. Qed.
+Print Assumptions C14_written_text_is_detected.
+
+(* the clauses of the property, spelled out on a flat view: per sequence the residues and the type, per feature of meta['fts'] the
+   start, stop, strand and defect of every location, in order -- equal after write -> read for every basket of the domain *)
+Theorem C14_view_preserved : forall b, wf_C14 b = true ->
+  exists b', write_read b = Ok b' /\ basket_view b' = basket_view b.
+Proof. exact view_preserved. Qed.
+Print Assumptions C14_view_preserved.
+
+(* totality of the hook on arbitrary JSON trees: (i) a tree without any `_cls` key is returned as the plain data it denotes;
+   (ii) on every tree read_sjson either succeeds or raises TypeError, ValueError, KeyError or AssertionError, and sugar.read adds
+   only AttributeError (a basket element without metadata) *)
+Theorem C14_dec_plain : forall j, no_cls j = true -> dec j = Ok (plain_of j).
+Proof. exact dec_plain. Qed.
+Print Assumptions C14_dec_plain.
+
+Theorem C14_hook_errors_documented :
+  (forall j e, dec j = Err e -> documented_error e = true) /\
+  (forall viaread j e, read_any viaread j = Err e -> documented_error e = true \/ e = E_Attribute).
+Proof. exact (conj dec_errors_documented read_errors_documented). Qed.
+Print Assumptions C14_hook_errors_documented.
